@@ -42,6 +42,11 @@ class MergeAsof(Merge):
         "direction": "backward",
     }
 
+    def _simplify_up(self, parent, dependents):
+        # Merge's rules for projections and filters read parameters (how,
+        # shuffle keys) that an as-of merge does not have
+        return
+
     @functools.cached_property
     def _kwargs(self):
         return {
